@@ -104,8 +104,11 @@ func (o *histogramOperator) Next(ctx context.Context) ([]model.StepVector, error
 
 	o.scalarPoints = o.scalarPoints[:0]
 	for _, scalar := range scalars {
+		// Keep the scalars aligned with the steps of the vector argument.
 		if len(scalar.Samples) > 0 {
 			o.scalarPoints = append(o.scalarPoints, scalar.Samples[0])
+		} else {
+			o.scalarPoints = append(o.scalarPoints, math.NaN())
 		}
 		o.scalarOp.GetPool().PutStepVector(scalar)
 	}
@@ -138,9 +141,10 @@ func (o *histogramOperator) processInputSeries(vectors []model.StepVector) ([]mo
 			if len(stepBuckets) == 0 {
 				continue
 			}
-			// If there is only bucket or if we are after how many
-			// scalar points we have then it needs to be NaN.
-			if len(stepBuckets) == 1 || stepIndex >= len(o.scalarPoints) {
+			// If we are after how many scalar points we have then it needs to be NaN.
+			// A single bucket is handled by bucketQuantile, which still returns
+			// +Inf/-Inf for a quantile outside of [0, 1].
+			if stepIndex >= len(o.scalarPoints) {
 				step.SampleIDs = append(step.SampleIDs, uint64(i))
 				step.Samples = append(step.Samples, math.NaN())
 				continue
